@@ -216,6 +216,10 @@ func (d *deliverFire) Fire() { d.n.deliver(d.raw, d.m, false) }
 
 // Schedule delivers r.Raw to every capture handle after r.DelayNs of virtual time.
 func (n *Net) Schedule(r Reply) {
+	if r.DelayNs <= 0 {
+		n.deliver(r.Raw, r.Meta, false) // no latency: queued before the send call returns
+		return
+	}
 	vsched.AddTimer(vsched.Now()+r.DelayNs, &deliverFire{n, r.Raw, r.Meta})
 }
 
